@@ -325,5 +325,9 @@ def jobs(tier):
                            continue_after_violation=fibre == 'lumped_losses'))
     for layout in ('single', 'spliced', 'two_spans'):
         js.append(dict(name=f'H8c:connectors_and_padding:{layout}', fn='h_padding', params=dict(layout=layout), cost=60))
+    # every amplifier gets a model: the selection itself never fails internally, for any required gain and power
+    for lib in ('vg3', 'lowpower+highgainmin', 'vg+fixed+highpower'):
+        js.append(dict(name=f'H8d:amplifier_selection_always_answers:{lib}', module='harness.c10', fn='h_select',
+                       params=dict(lib=lib, raman_allowed=False), cost=100, witness_every=5, budget_s=200 if tier == 'quick' else 600))
     js.append(dict(name='H8b:designed_network:shape_grammar', fn='h_pipeline', cost=200, witness_every=1, budget_s=250 if tier == 'quick' else 600))
     return js
